@@ -5,6 +5,7 @@ import (
 	"io"
 	"math/rand"
 	"net"
+	"sync"
 	"time"
 
 	. "github.com/M2MGateway/go-smpp/pdu"
@@ -15,6 +16,7 @@ type Conn struct {
 	ctx          context.Context
 	cancel       context.CancelFunc
 	receiveQueue chan interface{}
+	mutex        sync.Mutex // guards pending
 	pending      map[int32]func(interface{})
 	NextSequence func() int32
 	ReadTimeout  time.Duration
@@ -71,7 +73,7 @@ func (c *Conn) Watch() {
 				Tags:   Tags{0xFFFF: []byte(err.Error())},
 			})
 			continue
-		} else if callback, ok := c.pending[ReadSequence(packet)]; ok {
+		} else if callback, ok := c.lookup(ReadSequence(packet)); ok {
 			callback(packet)
 		} else {
 			c.receiveQueue <- packet
@@ -86,8 +88,8 @@ func (c *Conn) Submit(ctx context.Context, packet Responsable) (resp interface{}
 		return
 	}
 	returns := make(chan interface{}, 1)
-	c.pending[sequence] = func(resp interface{}) { returns <- resp }
-	defer delete(c.pending, sequence)
+	c.register(sequence, func(resp interface{}) { returns <- resp })
+	defer c.unregister(sequence)
 	select {
 	case <-c.ctx.Done():
 		err = ErrConnectionClosed
@@ -95,6 +97,25 @@ func (c *Conn) Submit(ctx context.Context, packet Responsable) (resp interface{}
 		err = ctx.Err()
 	case resp = <-returns:
 	}
+	return
+}
+
+func (c *Conn) register(sequence int32, callback func(interface{})) {
+	c.mutex.Lock()
+	defer c.mutex.Unlock()
+	c.pending[sequence] = callback
+}
+
+func (c *Conn) unregister(sequence int32) {
+	c.mutex.Lock()
+	defer c.mutex.Unlock()
+	delete(c.pending, sequence)
+}
+
+func (c *Conn) lookup(sequence int32) (callback func(interface{}), ok bool) {
+	c.mutex.Lock()
+	defer c.mutex.Unlock()
+	callback, ok = c.pending[sequence]
 	return
 }
 
